@@ -103,9 +103,13 @@ def one_row(job, tables, rnd, t, o):
             if objs is not None:
                 objs.append(c)
             if job.get("c09"):
-                sev = c.severities()
-                js = c.as_json()
-                jm = c.as_json(sort=True, minimal=True)
+                try:
+                    sev = c.severities()
+                    js = c.as_json()
+                    jm = c.as_json(sort=True, minimal=True)
+                except Exception as e_:  # noqa - an accessor that raises for an accepted vector is recorded as an impossible rating
+                    sev = ["<raised %s>" % type(e_).__name__] * len(sc)
+                    js = jm = {}
                 jsev = [js.get("baseSeverity"), js.get("temporalSeverity"), js.get("environmentalSeverity")]
                 jmsev = [jm.get("baseSeverity"), jm.get("temporalSeverity"), jm.get("environmentalSeverity")]
                 for k, x in enumerate(sc):
